@@ -29,6 +29,7 @@ RULE = ("One evaluation = one seeded execution of two real clients (real "
         "Distinct: event-log digests among non-trivial runs.")
 RULE += (' Application messages include the empty string, a NUL byte and 3 kB blobs.')
 RULE += (' One relation appends a line ending or another blank other than the plain space; base codes may end in such a blank themselves (entered through set_code on one side and through the input helper on the other).')
+RULE += (' One relation gives the two sides application ids that differ only in Unicode normalisation form (no bind rewriting: the server files them apart).')
 RULE += (' One relation spells the nameplate number differently (leading zero, digits of another script).')
 RULE += (' Codes also come with a doubled hyphen, a trailing hyphen or one word only; one relation adds a hyphen.')
 LEVEL_TEXT = ("Seeded exploration of inputs x schedules. match := NFC(codeA)=="
@@ -53,7 +54,8 @@ WORDS = ("café", "naïve", "가나", "q̣̇x", "alpha",
 PURPOSES = ("p1", "p2", "transit", "café", "café", "x/y z", "")
 RELATIONS = ("same", "same", "nfd", "nfd_partial", "mark_order", "char",
              "insert", "delete", "case", "nameplate", "compat", "appid",
-             "nfd+appid", "hyphen", "np_spelling", "trailing_ws")
+             "nfd+appid", "hyphen", "np_spelling", "trailing_ws",
+             "appid_spelling")
 
 
 WS_TAILS = ("\n", "\r\n", "\t", "\x0b", "\u00a0", "\u2028", "\n\n")
@@ -61,7 +63,7 @@ WS_TAILS = ("\n", "\r\n", "\t", "\x0b", "\u00a0", "\u2028", "\n\n")
 
 def relate(tape, code, relation):
     np, rest = code.split("-", 1)
-    if relation in ("same", "appid"):
+    if relation in ("same", "appid", "appid_spelling"):
         return code
     if relation in ("nfd", "nfd+appid"):
         return np + "-" + unicodedata.normalize("NFD", rest)
@@ -163,6 +165,12 @@ def run_one(seed, tape, opts):
     code_b = relate(tape, base, relation)
     appid_a = "sim.example/app"
     appid_b = appid_a + ("2" if "appid" in relation else "")
+    if relation == "appid_spelling":
+        # two different application ids (different strings) that differ only
+        # in Unicode normalisation form: each is filed by the server under
+        # the string it bound with, so the two never meet
+        appid_a = "caf\u00e9.example/\u00c5pp"
+        appid_b = unicodedata.normalize("NFD", appid_a)
     match = (unicodedata.normalize("NFC", code_a) ==
              unicodedata.normalize("NFC", code_b)) and appid_a == appid_b
     same_mailbox = code_a.split("-")[0] == code_b.split("-")[0]
@@ -171,7 +179,7 @@ def run_one(seed, tape, opts):
                      versions={"who": "A"})
     b = w.add_client("B", appid=appid_b, api=tape.pick(apis, "api_b"),
                      versions={"who": "B"})
-    if appid_a != appid_b:
+    if appid_a != appid_b and relation != "appid_spelling":
         # put both into the same server namespace although they bind (and
         # run SPAKE2) with different application ids
         def rewrite(end, m):
